@@ -278,7 +278,8 @@ CONTRACTS = [
              self_fields={"_noise": "obj[Noise]", "_framer": "obj[_Framer]"}, returns="nt[Handshake]",
              modifies=["_noise.failed"], raises={"Disconnect": None},
              ensures_raise={"Disconnect": [("only-on-a-rejected-handshake", "self._noise.failed")]},
-             ensures=[("handshake-token", "result is not None and isinstance(result, Handshake)")]),
+             ensures=[("handshake-token", "result is not None and isinstance(result, Handshake)"),
+                      ("accepted-means-nothing-rejected", "self._noise.failed == old(self._noise.failed)")]),
     Contract("lemma:packet_boundaries_coincide", props=[PROP], source_module="wormhole/_dilation/connection.py",
              params={"L": "int", "k": "int"},
              source_text="""
@@ -380,18 +381,22 @@ COUPLED = ("not in_state(self, 'no_role_set') and in_state(self._framer, 'want_f
            "in_state(self, 'want_handshake_leader', 'want_handshake_follower', 'want_message')")
 FRAMER_INV_R = "in_state(self._framer, 'want_frame') == self._framer._can_send_frames"
 IS_FRAME = "isinstance(token, Frame)"
+NOISE_OK = "not self._noise.failed"      # Noise has rejected nothing so far on this connection (else it was dropped)
 
 GEN_CONTRACTS += [
     Contract(f"{CON}:{AU}", props=[PROP], params={"data": "bytes"}, self_fields=RECORD_FIELDS,
-             requires=[COUPLED, FRAMER_INV_R],
-             modifies=["__state", "_framer.__state", "_framer._buffer", "_framer._can_send_frames"],
+             requires=[COUPLED, FRAMER_INV_R, NOISE_OK],
+             modifies=["__state", "_framer.__state", "_framer._buffer", "_framer._can_send_frames", "_noise.rx", "_noise.failed"],
              raises={"Disconnect": None, "ValueError": None, "UnicodeDecodeError": None},
-             ensures=[("machines-still-in-lock-step", COUPLED), ("framer-invariant-kept", FRAMER_INV_R)],
-             ensures_raise={e: [("the-failing-token-yields-nothing", f"body_yields('{AU}', '{AU}') == 0")]
-                            for e in ("ValueError", "UnicodeDecodeError")},
+             ensures=[("machines-still-in-lock-step", COUPLED), ("framer-invariant-kept", FRAMER_INV_R),
+                      ("nothing-was-rejected", NOISE_OK)],
+             ensures_raise=dict({e: [("the-failing-token-yields-nothing", f"body_yields('{AU}', '{AU}') == 0")]
+                                 for e in ("ValueError", "UnicodeDecodeError")},
+                                Disconnect=[("the-failing-token-yields-nothing",
+                                             f"body_inputs('{AU}', 'got_frame') == 0 or body_yields('{AU}', '{AU}') == 0")]),
              loops={0: {"header": "for token in self._framer.add_and_parse(data)",
-                        "modifies": [("self", "__state")],
-                        "invariant": [COUPLED],
+                        "modifies": [("self", "__state"), ("self", "_noise", "rx"), ("self", "_noise", "failed")],
+                        "invariant": [COUPLED, NOISE_OK],
                         "body_ensures": [
                             f"body_inputs('{AU}', 'got_prologue') == ite(isinstance(token, Prologue), 1, 0)",
                             f"body_inputs('{AU}', 'got_frame') == ite({IS_FRAME}, 1, 0)",
@@ -413,6 +418,65 @@ GEN_CONTRACTS += [
                   "Framer loop invariants are re-proved here with this loop body running at every yield (real interleaving)"),
 ]
 
+DCP_FIELDS = {"__state": "state", "_connector": "obj[ConnectorB]", "_manager": "opt[obj[ManagerB]]",
+              "_inbound_record_queue": f"seq[{RECORD}]", "_can_send_records": "bool", "_disconnected": "obj[ObserverB]",
+              "_role": "opaque[Role]", "_record": "obj[_Record]", "transport": "obj[Transport]"}
+DCP_INV = "in_state(self, 'selected') == (self._manager is not None)"
+LINK_INV = [x.replace("self", "self._record") for x in (COUPLED, FRAMER_INV_R)]
+LINK_NOISE_OK = NOISE_OK.replace("self", "self._record")
+PLAIN = "(not isinstance(token, Handshake) and not isinstance(token, KCM))"
+FAILING = "'parse_prologue', 'parse_relay_ok', 'process_handshake', 'decrypt_message'"
+
+GEN_CONTRACTS += [
+    Contract(f"{CON}:{DR}", props=[PROP, "C11"], params={"data": "bytes"}, self_fields=DCP_FIELDS,
+             requires=[DCP_INV, LINK_NOISE_OK] + LINK_INV,
+             modifies=["__state", "_inbound_record_queue", "_record.__state", "_record._noise.rx", "_record._noise.tx",
+                       "_record._noise.failed", "_record._framer.__state", "_record._framer._buffer",
+                       "_record._framer._can_send_frames"],
+             raises={"NoTransition": None, "ValueError": None, "UnicodeDecodeError": None},
+             ensures_raise={
+                 "NoTransition": [("only-from-this-protocol's-own-table-KCM-twice-or-record-before-KCM",
+                                   "last_input_class() == 'DilatedConnectionProtocol'"),
+                                  ("the-offending-token-reaches-nobody", "actions_after_last_input() == 0")],
+                 "ValueError": [("nothing-at-all-happens-after-the-unparsable-record", "last_action() == 'decrypt_message'")],
+                 "UnicodeDecodeError": [("nothing-at-all-happens-after-the-unparsable-record", "last_action() == 'decrypt_message'")]},
+             ensures=[("selected-iff-manager", DCP_INV)] + [(f"link-invariant-{i}", x) for i, x in enumerate(LINK_INV)],
+             internal_ensures=[
+                 ("a-rejected-prologue-relay-reply-handshake-or-frame-always-closes-the-connection",
+                  f"bcalls('loseConnection') == unreturned_calls({FAILING}) and unreturned_calls() == unreturned_calls({FAILING})"),
+                 ("and-nothing-else-happens-after-the-rejected-token",
+                  "unreturned_calls() == 0 or (actions_after_failure() == 1 and last_action() == 'loseConnection')"),
+                 ("no-close-without-a-rejection", "unreturned_calls() > 0 or self._record._noise.failed == old(self._record._noise.failed)")],
+             loops={0: {"header": "for token in self._record.add_and_unframe(data)",
+                        "modifies": [("self", "__state"), ("self", "_inbound_record_queue"), ("self", "_record", "_noise", "tx")],
+                        "invariant": [DCP_INV],
+                        "body_ensures": [
+                            f"body_bcalls('{DR}', 'got_record') == ite(at_iter(in_state(self, 'selected')) and {PLAIN}, 1, 0)",
+                            f"implies(body_bcalls('{DR}', 'got_record') == 1, body_bcall_arg('{DR}', 'got_record', 0, 0) == token)",
+                            f"implies(at_iter(in_state(self, 'selecting')) and {PLAIN}, "
+                            f"self._inbound_record_queue == at_iter(self._inbound_record_queue) + [token])",
+                            f"(at_iter(in_state(self, 'selecting')) and {PLAIN}) or "
+                            f"self._inbound_record_queue == at_iter(self._inbound_record_queue)",
+                            f"body_calls('{DR}', 'send_record') == ite(isinstance(token, Handshake) and is_role(self._role, 'FOLLOWER'), 1, 0)",
+                            f"implies(body_calls('{DR}', 'send_record') == 1, isinstance(body_call_arg('{DR}', 'send_record', 0, 1), KCM))",
+                            f"body_inputs('{DR}', 'got_kcm') == ite(isinstance(token, KCM), 1, 0)",
+                            f"body_bcalls('{DR}', 'add_candidate') == body_inputs('{DR}', 'got_kcm')",
+                            f"body_bcalls('{DR}') == body_bcalls('{DR}', 'got_record', 'add_candidate')",
+                            f"body_inputs('{DR}', 'got_record') == ite({PLAIN}, 1, 0)"]}},
+             note="the three real bodies (dataReceived, add_and_unframe, add_and_parse) run interleaved as Python runs them; a "
+                  "Disconnect from the framer (wrong relay reply / prologue), from process_handshake or from decrypt_message "
+                  "(NoiseInvalidMessage) is caught, transport.loseConnection() is the one and only thing that happens after it; "
+                  "records reach manager.got_record only in `selected`, are queued in `selecting`; the Follower sends its KCM "
+                  "once per Handshake token; got_kcm only for a KCM that decrypt_message returned"),
+    Contract(f"{CON}:DilatedConnectionProtocol.connectionLost", props=[PROP, "C11"], params={"why": "opaque[Failure]"},
+             self_fields=DCP_FIELDS, modifies=[],
+             ensures=[("state-kept", "state_index(self) == old(state_index(self))")],
+             internal_ensures=[("observers-of-this-link-are-told-once", "bcalls('fire') == 1 and len(bcall_names()) == 1 and "
+                                                                        "bcall_arg('fire', 0, 0) is self")],
+             note="when_disconnected() observers (Manager.connector_connection_lost, wired at select()) fire exactly once; nothing "
+                  "is delivered to the manager from here"),
+]
+
 
 def regf_gen():
     reg = regf()
@@ -425,6 +489,17 @@ def regf_gen():
     reg.class_fields["_Framer"] = dict(FRAMER_FIELDS)
     reg.class_fields["_Record"] = dict(RECORD_FIELDS)
     reg.boundary["Noise.write_message"] = noise_write_message
+    reg.class_fields["_Record"]["_role"] = "opaque[Role]"
+    from . import c11
+    c11.install_roles(reg)
+    return reg
+
+
+def regf_dcp():
+    """dataReceived: an input of the protocol's own machine that has no row raises automat.NoTransition (what Automat does);
+    the contract says which inputs that can be (never one of the framer's or the record layer's)"""
+    reg = regf_gen()
+    reg.automat.notransition_raises = True
     return reg
 
 
@@ -582,6 +657,26 @@ def _setup_gen_spec(reg):
         return VStr("")
 
     sf["last_input_class"] = last_input_class
+
+    def _actions_after(it, idx):
+        return VInt(sum(1 for e in it.ctx.trace[idx + 1:] if e[0] in ("bcall", "input", "call")))
+
+    def actions_after_failure(it):
+        """boundary calls / inputs / contract calls made after the last contract call that raised"""
+        tr = it.ctx.trace
+        last = -1
+        for i, e in enumerate(tr):
+            if e[0] == "call" and not (i + 1 < len(tr) and tr[i + 1][0] == "callret" and tr[i + 1][1][0] == e[1][0]):
+                last = i
+        return _actions_after(it, last) if last >= 0 else VInt(0)
+
+    def actions_after_last_input(it):
+        tr = it.ctx.trace
+        idx = max([i for i, e in enumerate(tr) if e[0] == "input"] + [-1])
+        return _actions_after(it, idx) if idx >= 0 else VInt(0)
+
+    sf["actions_after_failure"] = actions_after_failure
+    sf["actions_after_last_input"] = actions_after_last_input
     sf["state_index"] = lambda it, o: VInt(it.force(o).fields["__state"].z)
 
 
@@ -650,7 +745,7 @@ def tasks():
     for c in CONTRACTS:
         out.append(ContractTask(c, _wrap(regf_lemma) if c.target == "lemma:record_roundtrip" else _wrap(regf)))
     for c in GEN_CONTRACTS:
-        out.append(ContractTask(c, regf_gen))
+        out.append(ContractTask(c, regf_dcp if "DilatedConnectionProtocol" in c.target else regf_gen))
     return out
 
 
